@@ -228,7 +228,62 @@ def _route_worker(_):
             if bad:
                 rep.violation({"kind": "route", "route": route}, "%s via %s: %s" % (p.id, route, bad), {"kind": "route", "def": p.id, "route": route, "payload": body.hex()})
         rep.sample({"route_check": p.id, "routes": list(routes)})
-    return dict(violations=rep.violations, inconclusive=rep.inconclusive, errors=rep.harness_errors, samples=rep.samples[:2], stats=explorer.STATS, n=sum(done.values()))
+    # two definitions of one PGN number decoded one after the other by the same decoder: the second is converted by its own layout
+    npairs = 0
+    for pgn, group in D.groups.items():
+        if len(group) < 2 or npairs >= (12 if _G["tier"] == "quick" else 200):
+            continue
+        withc = [q for q in group if any(f.pq in expect_unit and f.fixed and f.unit in ("K", "Pa", "rad", "m/s") for f in q.fields) and all(f.fixed for f in q.fields)]
+        for B in withc[:2]:
+            for A in [q for q in group if q is not B and all(f.fixed for f in q.fields)][:2]:
+                bad = pair_problem(R, D, A, B, prefs, expect_unit)
+                if bad is None:
+                    continue
+                npairs += 1
+                if bad:
+                    rep.violation({"kind": "route-after-sibling", "def": B.id}, "%s decoded after %s (same PGN %d): %s" % (B.id, A.id, pgn, bad),
+                                  {"kind": "pair", "a": A.id, "b": B.id})
+    rep.count("sibling_definition_pairs", npairs)
+    return dict(violations=rep.violations, inconclusive=rep.inconclusive, errors=rep.harness_errors, samples=rep.samples[:2], stats=explorer.STATS, n=sum(done.values()), counts=rep.counts)
+
+
+def sample_payload(p):
+    """concrete payload: match fields at their match values, every numeric field at a low legal raw value"""
+    from .wire import match_payload
+    pl = int.from_bytes(match_payload(p), "little")
+    for f in p.fields:
+        if f.match is None and f.fixed and f.res is not None and f.type in ("NUMBER", "DURATION", "TIME", "DATE", "PGN", "MMSI"):
+            lo, hi = numkernel.Sig(f).raw_range()
+            raw = max(lo if lo is not None else 0, 0) + 1
+            if hi is not None and raw > hi:
+                raw = hi
+            pl = (pl & ~(((1 << f.len) - 1) << f.off)) | ((raw & ((1 << f.len) - 1)) << f.off)
+    n = p.length or (max(f.off + f.len for f in p.fields if f.fixed) + 7) // 8
+    return (pl & ((1 << (8 * n)) - 1)).to_bytes(n, "little")
+
+
+def pair_problem(M, D, A, B, prefs, expect_unit):
+    """decode A then B (same PGN number) with one decoder that has unit preferences; None: the pair cannot be decoded"""
+    from datetime import datetime
+    TS = datetime(2020, 1, 1)
+    try:
+        dec = M.decoder.NMEA2000Decoder(preferred_units=dict(prefs))
+        ma = dec._decode(A.pgn, 3, 7, 255, TS, sample_payload(A)[::-1], b"", True)
+        mb = dec._decode(B.pgn, 3, 7, 255, TS, sample_payload(B)[::-1], b"", True)
+        plain_b = M.decoder.NMEA2000Decoder()._decode(B.pgn, 3, 7, 255, TS, sample_payload(B)[::-1], b"", True)
+    except Exception as e:
+        if isinstance(e, IndexError):
+            return "raised %r" % (e,)
+        return None
+    if ma is None or mb is None or plain_b is None or mb.id != B.id or ma.id != A.id:
+        return None
+    for f0, f1, fd in zip(plain_b.fields, mb.fields, B.fields):
+        if fd.pq in expect_unit and fd.unit in ("K", "Pa", "rad", "m/s"):
+            if f1.unit_of_measurement != expect_unit[fd.pq]:
+                return "field %s keeps unit %r (expected %r)" % (fd.id, f1.unit_of_measurement, expect_unit[fd.pq])
+        elif (f1.value, f1.unit_of_measurement) != (f0.value, f0.unit_of_measurement):
+            return "field %s changed from %r %r to %r %r" % (fd.id, f0.value, f0.unit_of_measurement, f1.value, f1.unit_of_measurement)
+    return ""
 
 
 def run(tier, seed):
@@ -360,6 +415,12 @@ def replay(r):
         i = p.fields.index(f)
         v0, v1 = m0.fields[i].value, m1.fields[i].value
         return (v0 is not None and v1 != v0 and f.unit.lower() == "deg"), "%s.%s: database unit %r, value %r becomes %r %r" % (p.id, f.id, f.unit, v0, v1, m1.fields[i].unit_of_measurement)
+    if r["kind"] == "pair":
+        A = [q for q in D.pgns if q.id == r["a"]][0]
+        B = [q for q in D.pgns if q.id == r["b"]][0]
+        prefs = {PQ.TEMPERATURE: "C", PQ.PRESSURE: "PSI", PQ.ANGLE: "Deg", PQ.SPEED: "KTS"}
+        bad = pair_problem(N, D, A, B, prefs, {"TEMPERATURE": "C", "PRESSURE": "PSI", "ANGLE": "Deg", "SPEED": "kts"})
+        return bool(bad), bad or "converted by its own layout"
     if r["kind"] == "route":
         from datetime import datetime
         p = [q for q in D.pgns if q.id == r["def"]][0]
